@@ -8,7 +8,7 @@ ap = argparse.ArgumentParser()
 ap.add_argument('src'); ap.add_argument('entry'); ap.add_argument('--unwind', type=int, default=10)
 ap.add_argument('-D', action='append', default=[]); ap.add_argument('--config', default='base')
 ap.add_argument('--flag', action='append', default=[]); ap.add_argument('--unwindset', action='append', default=[])
-ap.add_argument('--checks', default='none'); ap.add_argument('--object-bits', type=int, default=10)
+ap.add_argument('--checks', default='none'); ap.add_argument('--lb', action='append', default=[], help='regex=bound'); ap.add_argument('--object-bits', type=int, default=10)
 ap.add_argument('--timeout', type=int, default=600); ap.add_argument('--mem', type=float, default=24)
 ap.add_argument('--stubs', default=None); ap.add_argument('--noinline', action='append', default=[])
 ap.add_argument('--max-node-type', type=int, default=None); ap.add_argument('--threads', action='store_true')
@@ -26,7 +26,8 @@ if a.vec is not None:
     g = u.build_native_gen(a.wd, a.entry); r = u.build_native_real(a.wd, a.entry)
     print('GEN :', pl.run_native(g, vec)); print('REAL:', pl.run_native(r, vec))
     sys.exit(0)
-cmd = pl.cbmc_cmd(c, a.entry, a.unwind, a.unwindset, a.flag + (['--trace'] if a.trace else []), a.object_bits, a.checks)
+lbs = pl.loop_unwindset(c, a.entry, [(x.rsplit('=', 1)[0], int(x.rsplit('=', 1)[1])) for x in a.lb]); print('unwindset from --lb:', len(lbs))
+cmd = pl.cbmc_cmd(c, a.entry, a.unwind, a.unwindset + lbs, a.flag + (['--trace'] if a.trace else []), a.object_bits, a.checks)
 res = pl.run_cbmc(cmd, a.timeout, a.mem, log=os.path.join(a.wd, 'last.log'))
 print('status', res['status'], 'verdict', res['verdict'], 'wall', res['wall_s'], res['stats'])
 if res.get('error'): print('ERROR', res['error'])
